@@ -8,6 +8,7 @@ import (
 
 	dbm "github.com/cometbft/cometbft-db"
 	abci "github.com/cometbft/cometbft/abci/types"
+	"github.com/cosmos/gogoproto/proto"
 
 	"verifharness/simnet"
 )
@@ -162,6 +163,9 @@ func (w *World) twinExecute(rec *BlockRec, mask uint64) error {
 	}
 	if d := eventsEqual(rec.EndRes.Events, eb.Events); d != "" {
 		return vio(prop, "EndBlock events differ between instances at height %d: %s", t.Hdr.Height, d)
+	}
+	if !proto.Equal(rec.EndRes.ConsensusParamUpdates, eb.ConsensusParamUpdates) {
+		return vio(prop, "EndBlock reports other consensus parameters on two instances at height %d: %v vs %v", t.Hdr.Height, rec.EndRes.ConsensusParamUpdates, eb.ConsensusParamUpdates)
 	}
 	if len(rec.EndRes.ValidatorUpdates) != len(eb.ValidatorUpdates) {
 		return vio(prop, "validator updates differ between instances")
